@@ -2,8 +2,10 @@ import Rangers.Proofs.Ledger
 /-! Invariants of the EVM frame skeleton `exec` (C06). -/
 namespace Rangers.Ledger
 
-/-- conserved quantity of the frame interpreter: live balances plus value burned by self-destruct-to-self -/
-def mass (s : St) : Nat := total s.bal + s.burned
+/-- conserved quantity: live balances + value burned by self-destruct-to-self + stake held by the registry
+    + escrowed refunds/rewards, minus the ghost counter of what UNSTAKE escrowed beyond the stake it removed -/
+def mass (s : St) : Int :=
+  (total s.bal : Int) + (s.burned : Int) + (stakeSum s.reg : Int) + (escrowTotal s.escrow : Int) - (s.excess : Int)
 
 theorem mass_revertTo (snap after : St) : mass (revertTo snap after) = mass snap := rfl
 
@@ -40,6 +42,79 @@ theorem mass_transfer' (s : St) (src dst : Addr) (v : Nat)
     mass { s with bal := vmTransfer s.bal src dst (v : Int) } = mass s := by
   apply mass_transfer
   simp only [Bool.and_eq_false_iff]; right; exact h
+
+theorem mass_stake_update (s : St) (self : Addr) (m' : MinerRec) (t : Nat)
+    (hg : regGet s.reg m'.id = some m') (hle : toWei t ≤ get s.bal self) :
+    mass { s with bal := (subBal s.bal self (toWei t)).1, reg := regSet s.reg { m' with stake := m'.stake + t } } = mass s := by
+  unfold mass
+  simp only
+  have h1 := (subBal_ok_of_le s.bal self (toWei t) hle).2.1
+  have h2 := stakeSum_regSet s.reg m' { m' with stake := m'.stake + t } hg
+  simp only at h2
+  have h3 := toWei_add m'.stake t
+  omega
+
+theorem mass_opStake (s : St) (self : Addr) (v : Nat) : mass (opStake s self v) = mass s := by
+  unfold opStake
+  generalize v / wei = t
+  simp only
+  split
+  · rfl
+  · cases hb : byAccount s.reg self with
+    | none => rfl
+    | some m =>
+      simp only
+      split
+      · rfl
+      · split
+        · rfl
+        · rename_i hlt
+          cases hg : regGet s.reg m.id with
+          | none => rfl
+          | some m' =>
+            have hid := regGet_id s.reg m.id m' hg
+            exact mass_stake_update s self m' t (by rw [hid]; exact hg) (by omega)
+theorem mass_opUnStake (code : Code) (origin : Addr) (s : St) (self : Addr) (v : Nat) :
+    mass (opUnStake code origin s self v) = mass s := by
+  unfold opUnStake
+  cases hb : byAccount s.reg self with
+  | none => rfl
+  | some m =>
+    simp only
+    cases hg : getRefundStake s.reg (hasCodeIn code) m.id self (if v / wei > uint64Max then uint64Max else v / wei) with
+    | none => rfl
+    | some p =>
+      obtain ⟨r', refund, acct⟩ := p
+      simp only
+      have h1 := getRefundStake_sum _ _ _ _ _ _ _ _ hg
+      unfold mass
+      simp only
+      by_cases c : v < toWei refund
+      · simp only [c, if_true]
+        rw [escrowTotal_append, escrowTotal_append, escrowTotal_single, escrowTotal_single]
+        omega
+      · simp only [c, if_false]
+        rw [escrowTotal_append, escrowTotal_single]
+        omega
+
+theorem mass_opUnStakeAll (code : Code) (s : St) (self : Addr) (s1 : St) (h : opUnStakeAll code s self = some s1) :
+    mass s1 = mass s := by
+  unfold opUnStakeAll at h
+  cases hb : byAccount s.reg self with
+  | none => simp [hb] at h
+  | some m =>
+    simp only [hb] at h
+    cases hg : getRefundStake s.reg (hasCodeIn code) m.id self uint64Max with
+    | none => simp [hg] at h
+    | some p =>
+      obtain ⟨r', refund, acct⟩ := p
+      simp only [hg, Option.some.injEq] at h
+      subst h
+      have h1 := getRefundStake_sum _ _ _ _ _ _ _ _ hg
+      unfold mass
+      simp only
+      rw [escrowTotal_append, escrowTotal_single]
+      omega
 
 theorem exec_mass (code : Code) (origin : Addr) :
     ∀ (f : Nat) (self : Addr) (ro : Bool) (sc : Script) (s : St),
@@ -93,7 +168,9 @@ theorem exec_mass (code : Code) (origin : Addr) :
         · rw [ih]
           unfold mass; simp only
           have := total_addBal s.bal to 0
-          simpa using this
+          have e : ((0 : Nat) : Int) = 0 := rfl
+          rw [e] at this
+          rw [this]; simp
         · rw [mass_revertTo]
       | create v init =>
         simp only [exec]
@@ -116,6 +193,53 @@ theorem exec_mass (code : Code) (origin : Addr) :
           split
           · rw [ih]; exact mass_transfer s origin to v (by simpa using hg)
           · rw [mass_revertTo]
+      | stake v => simp only [exec]; rw [ih]; exact mass_opStake s self v
+      | unstake v => simp only [exec]; rw [ih]; exact mass_opUnStake code origin s self v
+      | unstakeAll =>
+        simp only [exec]
+        cases hu : opUnStakeAll code s self with
+        | none => rfl
+        | some s1 => simp only; rw [ih]; exact mass_opUnStakeAll code s self s1 hu
+
+theorem burned_opStake (s : St) (self : Addr) (v : Nat) : (opStake s self v).burned = s.burned := by
+  unfold opStake
+  simp only
+  split
+  · rfl
+  · cases byAccount s.reg self with
+    | none => rfl
+    | some m =>
+      simp only
+      split
+      · rfl
+      · split
+        · rfl
+        · cases regGet s.reg m.id <;> rfl
+
+theorem burned_opUnStake (code : Code) (origin : Addr) (s : St) (self : Addr) (v : Nat) :
+    (opUnStake code origin s self v).burned = s.burned := by
+  unfold opUnStake
+  cases byAccount s.reg self with
+  | none => rfl
+  | some m =>
+    simp only
+    cases getRefundStake s.reg (hasCodeIn code) m.id self (if v / wei > uint64Max then uint64Max else v / wei) with
+    | none => rfl
+    | some p => obtain ⟨r', refund, acct⟩ := p; rfl
+
+theorem burned_opUnStakeAll (code : Code) (s : St) (self : Addr) (s1 : St) (h : opUnStakeAll code s self = some s1) :
+    s1.burned = s.burned := by
+  unfold opUnStakeAll at h
+  cases hb : byAccount s.reg self with
+  | none => simp [hb] at h
+  | some m =>
+    simp only [hb] at h
+    cases hg : getRefundStake s.reg (hasCodeIn code) m.id self uint64Max with
+    | none => simp [hg] at h
+    | some p =>
+      obtain ⟨r', refund, acct⟩ := p
+      simp only [hg, Option.some.injEq] at h
+      subst h; rfl
 
 /-- the ghost burn counter never decreases over a frame (a reverted child restores the value at its entry) -/
 theorem exec_burned_mono (code : Code) (origin : Addr) :
@@ -187,5 +311,184 @@ theorem exec_burned_mono (code : Code) (origin : Addr) :
         · split
           · exact ih _ _ _ { s with bal := vmTransfer s.bal origin to v }
           · exact Nat.le_refl _
+      | stake v =>
+        simp only [exec]
+        refine Nat.le_trans ?_ (ih _ _ _ _)
+        rw [burned_opStake]; exact Nat.le_refl _
+      | unstake v =>
+        simp only [exec]
+        refine Nat.le_trans ?_ (ih _ _ _ _)
+        rw [burned_opUnStake]; exact Nat.le_refl _
+      | unstakeAll =>
+        simp only [exec]
+        cases hu : opUnStakeAll code s self with
+        | none => exact Nat.le_refl _
+        | some s1 =>
+          simp only
+          refine Nat.le_trans ?_ (ih _ _ _ _)
+          rw [burned_opUnStakeAll code s self s1 hu]; exact Nat.le_refl _
+
+/-! ### the sum of balances never grows inside the EVM -/
+
+theorem total_suicide_le (s : St) (self ben : Addr) : total (suicide s self ben).bal ≤ total s.bal := by
+  have h := mass_suicide s self ben
+  have hb : s.burned ≤ (suicide s self ben).burned := by unfold suicide; simp only; omega
+  have e1 : (suicide s self ben).reg = s.reg := rfl
+  have e2 : (suicide s self ben).escrow = s.escrow := rfl
+  have e3 : (suicide s self ben).excess = s.excess := rfl
+  unfold mass at h
+  rw [e1, e2, e3] at h
+  omega
+
+theorem total_transfer_eq (s : St) (src dst : Addr) (v : Nat)
+    (h : (v != 0 && !canTransfer s.bal src v) = false) :
+    total (vmTransfer s.bal src dst (v : Int)) = total s.bal := by
+  have hm := mass_transfer s src dst v h
+  unfold mass at hm
+  simp only at hm
+  omega
+
+theorem total_opStake_le (s : St) (self : Addr) (v : Nat) : total (opStake s self v).bal ≤ total s.bal := by
+  unfold opStake
+  generalize v / wei = t
+  simp only
+  split
+  · exact Nat.le_refl _
+  · cases byAccount s.reg self with
+    | none => exact Nat.le_refl _
+    | some m =>
+      simp only
+      split
+      · exact Nat.le_refl _
+      · split
+        · exact Nat.le_refl _
+        · cases regGet s.reg m.id with
+          | none => exact Nat.le_refl _
+          | some m' => simp only; exact total_subBal_le s.bal self (toWei t)
+
+theorem bal_opUnStake (code : Code) (origin : Addr) (s : St) (self : Addr) (v : Nat) :
+    (opUnStake code origin s self v).bal = s.bal := by
+  unfold opUnStake
+  cases byAccount s.reg self with
+  | none => rfl
+  | some m =>
+    simp only
+    cases getRefundStake s.reg (hasCodeIn code) m.id self (if v / wei > uint64Max then uint64Max else v / wei) with
+    | none => rfl
+    | some p => obtain ⟨r', refund, acct⟩ := p; rfl
+
+theorem bal_opUnStakeAll (code : Code) (s : St) (self : Addr) (s1 : St) (h : opUnStakeAll code s self = some s1) :
+    s1.bal = s.bal := by
+  unfold opUnStakeAll at h
+  cases hb : byAccount s.reg self with
+  | none => simp [hb] at h
+  | some m =>
+    simp only [hb] at h
+    cases hg : getRefundStake s.reg (hasCodeIn code) m.id self uint64Max with
+    | none => simp [hg] at h
+    | some p =>
+      obtain ⟨r', refund, acct⟩ := p
+      simp only [hg, Option.some.injEq] at h
+      subst h; rfl
+
+theorem exec_total_le (code : Code) (origin : Addr) :
+    ∀ (f : Nat) (self : Addr) (ro : Bool) (sc : Script) (s : St),
+      total (exec code origin f self ro sc s).1.bal ≤ total s.bal := by
+  intro f
+  induction f with
+  | zero => intro self ro sc s; simp [exec]
+  | succ f ih =>
+    intro self ro sc s
+    cases sc with
+    | nil => simp [exec]
+    | cons a rest =>
+      cases a with
+      | stop => simp [exec]
+      | revert => simp [exec]
+      | invalid => simp [exec]
+      | suicide ben =>
+        simp only [exec]
+        split
+        · exact Nat.le_refl _
+        · exact total_suicide_le s self ben
+      | call to v =>
+        simp only [exec]
+        split
+        · exact Nat.le_refl _
+        · refine Nat.le_trans (ih _ _ _ _) ?_
+          split
+          · exact Nat.le_refl _
+          · rename_i hg
+            split
+            · refine Nat.le_trans (ih _ _ _ _) ?_
+              simp only
+              rw [total_transfer_eq s self to v (by simpa using hg)]; exact Nat.le_refl _
+            · exact Nat.le_refl _
+      | callcode to v =>
+        simp only [exec]
+        refine Nat.le_trans (ih _ _ _ _) ?_
+        split
+        · exact Nat.le_refl _
+        · split
+          · exact ih _ _ _ s
+          · exact Nat.le_refl _
+      | delegatecall to =>
+        simp only [exec]
+        refine Nat.le_trans (ih _ _ _ _) ?_
+        split
+        · exact ih _ _ _ s
+        · exact Nat.le_refl _
+      | staticcall to =>
+        simp only [exec]
+        refine Nat.le_trans (ih _ _ _ _) ?_
+        split
+        · refine Nat.le_trans (ih _ _ _ _) ?_
+          simp only
+          have := total_addBal s.bal to 0
+          have e : ((0 : Nat) : Int) = 0 := rfl
+          rw [e] at this
+          rw [this]; exact Nat.le_refl _
+        · exact Nat.le_refl _
+      | create v init =>
+        simp only [exec]
+        split
+        · exact Nat.le_refl _
+        · refine Nat.le_trans (ih _ _ _ _) ?_
+          split
+          · exact Nat.le_refl _
+          · rename_i hg
+            split
+            · refine Nat.le_trans (ih _ _ _ _) ?_
+              simp only
+              have hc : (v != 0 && !canTransfer s.bal self v) = false := by
+                simp only [Bool.and_eq_false_iff]; right; simpa using hg
+              rw [total_transfer_eq s self (freshAddr s.fresh) v hc]; exact Nat.le_refl _
+            · exact Nat.le_refl _
+      | authcall to v =>
+        simp only [exec]
+        refine Nat.le_trans (ih _ _ _ _) ?_
+        split
+        · exact Nat.le_refl _
+        · rename_i hg
+          split
+          · refine Nat.le_trans (ih _ _ _ _) ?_
+            simp only
+            rw [total_transfer_eq s origin to v (by simpa using hg)]; exact Nat.le_refl _
+          · exact Nat.le_refl _
+      | stake v =>
+        simp only [exec]
+        exact Nat.le_trans (ih _ _ _ _) (total_opStake_le s self v)
+      | unstake v =>
+        simp only [exec]
+        refine Nat.le_trans (ih _ _ _ _) ?_
+        rw [bal_opUnStake]; exact Nat.le_refl _
+      | unstakeAll =>
+        simp only [exec]
+        cases hu : opUnStakeAll code s self with
+        | none => exact Nat.le_refl _
+        | some s1 =>
+          simp only
+          refine Nat.le_trans (ih _ _ _ _) ?_
+          rw [bal_opUnStakeAll code s self s1 hu]; exact Nat.le_refl _
 
 end Rangers.Ledger
